@@ -9090,6 +9090,12 @@ func (c *BytecodeCompiler) emitCall(callInfo *vm.CallSiteInfo, location *positio
 	)
 }
 
+// Whether the class has no subclasses and cannot get any after this piece of code has been compiled.
+// In an incremental session (REPL) a later input can define a subclass that overrides the method.
+func (c *BytecodeCompiler) hasNoChildren(class *types.Class) bool {
+	return class.Children.Len() == 0 && !c.checker.IsIncremental()
+}
+
 func (c *BytecodeCompiler) compileCallMethod(receiverType types.Type, name value.Symbol, argCount int, loc *position.Location, tailCall bool) {
 	var fallback bool
 	var exact bool
@@ -9112,7 +9118,7 @@ func (c *BytecodeCompiler) compileCallMethod(receiverType types.Type, name value
 		case *types.SingletonClass:
 			switch o := narrowReceiverType.AttachedObject.(type) {
 			case *types.Class:
-				if exact || o.Children.Len() == 0 {
+				if exact || c.hasNoChildren(o) {
 					// singleton class has no children so method lookup can be static
 					c.compileOptimisedCallMethod(
 						receiverType,
@@ -9144,7 +9150,7 @@ func (c *BytecodeCompiler) compileCallMethod(receiverType types.Type, name value
 			)
 			return
 		case *types.Class:
-			if exact || narrowReceiverType.Children.Len() == 0 {
+			if exact || c.hasNoChildren(narrowReceiverType) {
 				// class has no children so method lookup can be static
 				c.compileOptimisedCallMethod(
 					receiverType,
@@ -9174,7 +9180,7 @@ func (c *BytecodeCompiler) compileCallMethod(receiverType types.Type, name value
 		case *types.Generic:
 			switch n := narrowReceiverType.Namespace.(type) {
 			case *types.Class:
-				if exact || n.Children.Len() == 0 {
+				if exact || c.hasNoChildren(n) {
 					c.compileOptimisedCallMethod(
 						receiverType,
 						name,
